@@ -160,7 +160,10 @@ def run(tier, seed):
         from nauyaca.server.protocol import GeminiServerProtocol
         from nauyaca.protocol.response import GeminiResponse
         from asyncio import sslproto
-        inputs = [b"gemini://localhost/\r\n", b"titan://localhost/x;size=1\r\na", b"GET / HTTP/1.0\r\n\r\n", b"\x16\x03\x01\x00\x05hello", b"\x00" * 100] + \
+        # (fragments shorter than a TLS record header cannot be rejected at once: the peer then stays silent until the handshake
+        #  timer fires - what the timer's callback writes is part of what "bytes sent without TLS" elicit)
+        inputs = [b"gemini://localhost/\r\n", b"titan://localhost/x;size=1\r\na", b"GET / HTTP/1.0\r\n\r\n", b"\x16\x03\x01\x00\x05hello", b"\x00" * 100,
+                  b"", b"g", b"gem", b"gemi", b"\x16", b"\x16\x03\x01", b"\x16\x03\x01\x00", b"\x16\x03\x01\x02\x00\x01\x00"] + \
                  [bytes(rng.randrange(256) for _ in range(rng.randint(1, 300))) for _ in range(20 if tier == "quick" else 300)]
         async def plain(data, backend):
             invoked = []
@@ -173,7 +176,20 @@ def run(tier, seed):
                 if backend == "pyopenssl":
                     from nauyaca.server.tls_protocol import TLSServerProtocol
                     p = TLSServerProtocol(lambda: GeminiServerProtocol(handler), tlsmem.server_ctx(True))
-                    p.connection_made(tcp); p.data_received(data)
+                    timers = []
+                    real_call_later = loop.call_later
+                    def spy(delay, cb, *a, **k):
+                        h = real_call_later(delay, cb, *a, **k); timers.append(h); return h
+                    loop.call_later = spy
+                    try:
+                        p.connection_made(tcp)
+                        if data: p.data_received(data)
+                        # the peer says nothing more: every timer the TLS layer has armed expires
+                        for h in list(timers):
+                            if not h.cancelled() and not tcp.closed: h._run()
+                    finally:
+                        del loop.call_later
+                    for h in timers: h.cancel()
                     made = p.inner_protocol is not None
                     if hasattr(p, "_cancel_handshake_timer"): p._cancel_handshake_timer()
                 else:
